@@ -182,6 +182,13 @@ func candidates(roots []*Term, limit int) map[*Sort][]*Term {
 			if si != sj {
 				return si
 			}
+			if gi, gj := goalTerms[ts[i].ID], goalTerms[ts[j].ID]; gi != gj {
+				return gi
+			}
+			// string literals (log texts mostly) after the strings the code computes with
+			if li, lj := isLit(ts[i]), isLit(ts[j]); li != lj {
+				return !li
+			}
 			return termWeight(ts[i]) < termWeight(ts[j])
 		})
 		nsk := 0
@@ -414,6 +421,9 @@ func groundIndexTerms(roots []*Term, limit int) map[*Sort][]*Term {
 			if ci != cj {
 				return !ci
 			}
+			if gi, gj := goalTerms[ts[i].ID], goalTerms[ts[j].ID]; gi != gj {
+				return gi
+			}
 			return termWeight(ts[i]) < termWeight(ts[j])
 		})
 		if len(ts) > limit {
@@ -425,7 +435,31 @@ func groundIndexTerms(roots []*Term, limit int) map[*Sort][]*Term {
 }
 
 // Instantiate returns a quantifier-free weakening of the asserted formulas.
+// goalTerms: ids of the terms occurring in the last assertions of the query being instantiated (the negated goal and
+// the path condition next to it); candidate instances among them are preferred when the per-sort limits cut the lists.
+var goalTerms = map[int]bool{}
+
+func isLit(t *Term) bool { return len(t.Op) > 4 && t.Op[:4] == "lit:" }
+
+func collectGoalTerms(asserts []*Term) {
+	goalTerms = map[int]bool{}
+	var rec func(t *Term)
+	rec = func(t *Term) {
+		if goalTerms[t.ID] {
+			return
+		}
+		goalTerms[t.ID] = true
+		for _, a := range t.Args {
+			rec(a)
+		}
+	}
+	for i := len(asserts) - 1; i >= 0 && i >= len(asserts)-8; i-- {
+		rec(asserts[i])
+	}
+}
+
 func Instantiate(asserts []*Term, rounds int) []*Term {
+	collectGoalTerms(asserts)
 	in := &instantiator{q: map[*Term]*qrec{}, memo: map[[2]int]*Term{}, maxInst: 6000}
 	var ground []*Term
 	for _, a := range asserts {
